@@ -9,20 +9,33 @@ import PonyVerif.Lemmas.RepRead
 namespace PonyVerif.Props.C21
 open PonyVerif.Model.RepRead
 
-/-- **read bits freeze values** (any state, any database, any operation, both code variants, also when the operation
-    raises): an instance in the identity map stays there, a set read bit stays set and the `_vals_` entry under it does
-    not change -/
+/-- **pinned values are frozen** (any state, any database, both code variants, also when the operation raises):
+    for an instance in the identity map, an attribute that is pinned -- non-volatile and either its read bit is set or
+    it carries an unflushed assignment of the session (`prot`) -- stays pinned and keeps its `_vals_` entry under EVERY
+    operation (queries, loads, collection operations, assignments to other attributes, `commit()` in the middle of the
+    session) except an assignment to that very attribute -/
 theorem C21_step_frozen (cfg : Cfg) (g : Bool) (s : Sess) (db : Db) (op : Op) (c : Nat) (a : Attr)
-    (hp : (s.c c).present = true) (hr : (s.c c).rbits a = true) :
-    ((exec cfg g s db op).1.c c).present = true ∧ ((exec cfg g s db op).1.c c).rbits a = true ∧
+    (hw : ∀ v, op ≠ .write c a v) (hp : (s.c c).present = true) (hr : prot cfg (s.c c) a = true) :
+    ((exec cfg g s db op).1.c c).present = true ∧ prot cfg ((exec cfg g s db op).1.c c) a = true ∧
     ((exec cfg g s db op).1.c c).vals a = (s.c c).vals a := by
-  obtain ⟨h1, h2⟩ := exec_frozen cfg g s db op c hp
-  exact ⟨h1, h2 a hr⟩
+  obtain ⟨h1, h2⟩ := exec_keeps cfg g s db op c a hw hp
+  exact ⟨h1, h2 hr⟩
 
-/-- a successful attribute read leaves the value in `_vals_` and, unless the attribute is volatile, sets its read bit -/
+/-- `commit()` turns every unflushed assignment into a read bit ([Entity._save_updated_]:
+    `_rbits_ |= _wbits_ & _all_bits_except_volatile_` BEFORE `_wbits_ = 0`) -/
+theorem C21_commit_pins_written (cfg : Cfg) (s : Sess) (db : Db) (c : Nat) (a : Attr)
+    (hok : (saveUpdated cfg s db c).2 = none) (hw : (s.c c).wmask a = true) :
+    ((saveUpdated cfg s db c).1.c c).rbits a = true ∧ ((saveUpdated cfg s db c).1.c c).wbits a = false := by
+  unfold saveUpdated at hok ⊢
+  simp only at hok ⊢
+  split
+  · rename_i h; simp [h] at hok
+  · simp [setC, hw]
+
+/-- a successful attribute read leaves the value in `_vals_` and, unless the attribute is volatile, pinned -/
 theorem C21_read_observes (cfg : Cfg) (g : Bool) (s s1 : Sess) (db : Db) (c : Nat) (a : Attr) (v : Val)
     (h : exec cfg g s db (.readAttr c a) = (s1, .val v)) :
-    (s1.c c).present = true ∧ (s1.c c).vals a = some v ∧ (cfg.volatile a = false → (s1.c c).rbits a = true) := by
+    (s1.c c).present = true ∧ (s1.c c).vals a = some v ∧ (cfg.volatile a = false → prot cfg (s1.c c) a = true) := by
   have hs := (readCore_spec cfg g s db c a).2.1
   simp only [exec] at h
   split at h
@@ -34,17 +47,24 @@ theorem C21_read_observes (cfg : Cfg) (g : Bool) (s s1 : Sess) (db : Db) (c : Na
     rw [heq] at this
     exact this
 
-/-- **C21, attributes** (all histories, all adversary choices): once `obj.attr` of a non-volatile attribute returned `v`,
-    after ANY further operations of the session interleaved with ANY committed changes, reading it again returns `v`
-    (the operations in between may raise; the read itself cannot return anything else) -/
-theorem C21_attr_repeat (cfg : Cfg) (g : Bool) (s s1 : Sess) (db1 : Db) (c : Nat) (a : Attr) (v : Val)
-    (h : exec cfg g s db1 (.readAttr c a) = (s1, .val v)) (hnv : cfg.volatile a = false)
-    (tr : List (Db × Op)) (db2 : Db) :
-    (exec cfg g (runS cfg g s1 tr) db2 (.readAttr c a)).2 = .val v := by
-  obtain ⟨hp, hv, hr⟩ := C21_read_observes cfg g s s1 db1 c a v h
-  obtain ⟨hp2, h2⟩ := run_frozen cfg g tr s1 c hp
-  obtain ⟨_, hv2⟩ := h2 a (hr hnv)
-  have hok := (readCore_spec cfg g (runS cfg g s1 tr) db2 c a).2.2 hp2 v (by rw [hv2, hv])
+/-- a successful assignment leaves the value in `_vals_` and, unless the attribute is volatile, pinned -/
+theorem C21_write_observes (cfg : Cfg) (g : Bool) (s s1 : Sess) (db : Db) (c : Nat) (a : Attr) (v : Val)
+    (h : exec cfg g s db (.write c a v) = (s1, .ok)) :
+    (s1.c c).present = true ∧ (s1.c c).vals a = some v ∧ (cfg.volatile a = false → prot cfg (s1.c c) a = true) := by
+  simp only [exec] at h
+  split at h
+  · simp at h
+  · rename_i hc
+    simp only [Prod.mk.injEq, and_true] at h
+    subst h
+    simp only [Bool.or_eq_true, Bool.not_eq_true', not_or] at hc
+    refine ⟨by simpa [setC] using hc.1.1, by simp [setC], fun hv => by simp [setC, prot, hv]⟩
+
+/-- reading a pinned value again -/
+theorem read_of_pinned (cfg : Cfg) (g : Bool) (s : Sess) (db : Db) (c : Nat) (a : Attr) (v : Val)
+    (hp : (s.c c).present = true) (hv : (s.c c).vals a = some v) :
+    (exec cfg g s db (.readAttr c a)).2 = .val v := by
+  have hok := (readCore_spec cfg g s db c a).2.2 hp v hv
   simp only [exec]
   split
   · rename_i heq; rw [heq] at hok; simp at hok
@@ -53,14 +73,39 @@ theorem C21_attr_repeat (cfg : Cfg) (g : Bool) (s s1 : Sess) (db1 : Db) (c : Nat
     simp only [Except.ok.injEq] at hok
     rw [hok]
 
-/-- the same through `x in p.kids` ([SetInstance.__contains__] reads the item's reference) -/
+/-- **C21, attributes** (all histories, all adversary choices): once `obj.attr` of a non-volatile attribute returned `v`,
+    after ANY further operations of the session -- queries, loads, assignments to other attributes, `commit()` --
+    interleaved with ANY committed changes of other sessions, reading it again returns `v`, as long as the session does not
+    itself assign that attribute (the operations in between may raise; the read cannot return anything else) -/
+theorem C21_attr_repeat (cfg : Cfg) (g : Bool) (s s1 : Sess) (db1 : Db) (c : Nat) (a : Attr) (v : Val)
+    (h : exec cfg g s db1 (.readAttr c a) = (s1, .val v)) (hnv : cfg.volatile a = false)
+    (tr : List (Db × Op)) (hnw : NoWrite c a tr) (db2 : Db) :
+    (exec cfg g (runS cfg g s1 tr) db2 (.readAttr c a)).2 = .val v := by
+  obtain ⟨hp, hv, hr⟩ := C21_read_observes cfg g s s1 db1 c a v h
+  obtain ⟨hp2, h2⟩ := run_keeps cfg g c a tr s1 hnw hp
+  obtain ⟨_, hv2⟩ := h2 (hr hnv)
+  exact read_of_pinned cfg g _ db2 c a v hp2 (by rw [hv2, hv])
+
+/-- **C21, own writes** (all histories, all adversary choices): a value the session assigned itself is what it reads
+    afterwards -- before the flush, after `commit()` in the middle of the session, and after any re-fetch of the row
+    following any committed change by others -- until it assigns the attribute again -/
+theorem C21_own_write_repeat (cfg : Cfg) (g : Bool) (s s1 : Sess) (db1 : Db) (c : Nat) (a : Attr) (v : Val)
+    (h : exec cfg g s db1 (.write c a v) = (s1, .ok)) (hnv : cfg.volatile a = false)
+    (tr : List (Db × Op)) (hnw : NoWrite c a tr) (db2 : Db) :
+    (exec cfg g (runS cfg g s1 tr) db2 (.readAttr c a)).2 = .val v := by
+  obtain ⟨hp, hv, hr⟩ := C21_write_observes cfg g s s1 db1 c a v h
+  obtain ⟨hp2, h2⟩ := run_keeps cfg g c a tr s1 hnw hp
+  obtain ⟨_, hv2⟩ := h2 (hr hnv)
+  exact read_of_pinned cfg g _ db2 c a v hp2 (by rw [hv2, hv])
+
+/-- the same through `x in p.kids` ([SetInstance.__contains__] reads the item's reference; the model never assigns it) -/
 theorem C21_contains_repeat (cfg : Cfg) (g : Bool) (s s1 : Sess) (db1 : Db) (c : Nat) (v : Val)
     (h : exec cfg g s db1 (.readAttr c refAttr) = (s1, .val v)) (hnv : cfg.volatile refAttr = false)
-    (tr : List (Db × Op)) (db2 : Db) (p : Nat) :
+    (tr : List (Db × Op)) (hnw : NoWrite c refAttr tr) (db2 : Db) (p : Nat) :
     (exec cfg g (runS cfg g s1 tr) db2 (.contains p c)).2 = .bool (v == (p : Int)) := by
   obtain ⟨hp, hv, hr⟩ := C21_read_observes cfg g s s1 db1 c refAttr v h
-  obtain ⟨hp2, h2⟩ := run_frozen cfg g tr s1 c hp
-  obtain ⟨_, hv2⟩ := h2 refAttr (hr hnv)
+  obtain ⟨hp2, h2⟩ := run_keeps cfg g c refAttr tr s1 hnw hp
+  obtain ⟨_, hv2⟩ := h2 (hr hnv)
   have hok := (readCore_spec cfg g (runS cfg g s1 tr) db2 c refAttr).2.2 hp2 v (by rw [hv2, hv])
   simp only [exec]
   split
@@ -193,17 +238,21 @@ theorem C21_len_repeat_unguarded_full_false : ¬ C21_len_repeat_unguarded_full :
 theorem C21_witness_guarded : (run wCfg true Sess.init wTrace).2 = [.num 2, .err .unrepeatable, .num 2] := by decide
 
 /-- partial theorem for the unguarded code: whatever was observed by ITERATION is protected by the read bits that
-    [Set.copy] sets on every item's reference (`Frozen`), independent of the phantom check -/
+    [Set.copy] sets on every item's reference, independent of the phantom check -/
 theorem C21_iter_items_keep_reference (cfg : Cfg) (g : Bool) (s s1 : Sess) (db1 : Db) (c : Nat) (v : Val)
     (h : exec cfg g s db1 (.readAttr c refAttr) = (s1, .val v)) (hnv : cfg.volatile refAttr = false)
-    (tr : List (Db × Op)) :
+    (tr : List (Db × Op)) (hnw : NoWrite c refAttr tr) :
     ((runS cfg g s1 tr).c c).vals refAttr = some v := by
   obtain ⟨hp, hv, hr⟩ := C21_read_observes cfg g s s1 db1 c refAttr v h
-  obtain ⟨_, h2⟩ := run_frozen cfg g tr s1 c hp
-  rw [(h2 refAttr (hr hnv)).2, hv]
+  obtain ⟨_, h2⟩ := run_keeps cfg g c refAttr tr s1 hnw hp
+  rw [(h2 (hr hnv)).2, hv]
 
 /-- the hypotheses of the repeat theorems are satisfiable: a read that succeeds, a collection that loads -/
 example : (exec wCfg true Sess.init wDb1 (.len 1)).2 = .num 2 := by decide
 example : (run wCfg true Sess.init [(wDb1, .fetch [1] none [0, 1]), (wDb1, .readAttr 1 1)]).2 = [.objs [1], .val 10] := by decide
+/-- the history of seeded change c21-1 on the model: assign, read back, commit, [others commit 99], re-fetch -> raises -/
+example : (run wCfg true Sess.init [(wDb1, .fetch [1] none [0, 1]), (wDb1, .write 1 1 50), (wDb1, .readAttr 1 1), (wDb1, .commit),
+    ([(1, [(0, 1), (1, 99)]), (2, [(0, 1), (1, 20)])], .fetch [1] none [0, 1]), ([], .readAttr 1 1)]).2
+    = [.objs [1], .ok, .val 50, .ok, .err .unrepeatable, .val 50] := by decide
 
 end PonyVerif.Props.C21
